@@ -265,14 +265,15 @@ def dictionary_cases(rng):
                      or (o[0] in ("WriteBytes", "IoWrite") and len(o[1]) in vals)]
             near = (v - 1, v, v + 1)
             def p0(o):
-                if o[0] in ("Shift", "ReadAll", "TryParse", "Clear"):
+                if o[0] in ("Shift", "ReadAll", "TryParse", "Clear") or (o[0] == "Deframe" and o[1] in (0, 1, 2)):
                     return 0
                 if any(isinstance(x, int) and x in near for x in o[1:]) or any(isinstance(x, tuple) and len(x) in near for x in o[1:]):
                     return 1
                 return 2
             alpha = sorted(alpha, key=p0)[:(40 if S <= 140000 else 26)]
         if b.ln() > 4096:
-            alpha = [o for o in alpha if o[0] != "Deframe"]       # the model's deframers are quadratic in the unread length
+            # the model's deframers are quadratic in the unread length: only the three provided ones, and (from_states) without the model
+            alpha = [o for o in alpha if o[0] != "Deframe" or o[1] in (0, 1, 2)]
         return [o for o in alpha if not (o[0] in ("ReadCopy", "TryReadExact", "IoRead") and o[1] > 300000)]
     def from_states(S, states, v):
         for ctor, m, pre in states:
@@ -282,7 +283,10 @@ def dictionary_cases(rng):
             for op in pre:
                 b.apply(op)
             for op in alphabet(b, S, v):
-                cases.append(mk_case(S, ctor, m, pre + [op], "dictionary"))
+                c = mk_case(S, ctor, m, pre + [op], "dictionary")
+                if op[0] == "Deframe" and b.ln() > 4096:
+                    c.meta["nomodel"] = True
+                cases.append(c)
                 if op[0] in ("Shift", "ReadBytes", "Wrote", "WriteBytes", "Clear", "ReadAll"):
                     b2 = PyBuf(S, ctor, m)
                     for o in pre + [op]:
@@ -295,6 +299,8 @@ def dictionary_cases(rng):
             continue
         mem = [97 + (i % 26) for i in range(S)]
         big = S > 4096
+        def blk(n):      # n bytes whose only terminators (CR LF NUL) are the last three
+            return tuple(mem[:max(n - 3, 0)] + [13, 10, 0][-min(n, 3):]) if n else ()
         states = []
         if v >= 1 and not big:
             states.append((2, mem, [("ReadBytes", v)]))                                 # read offset = v, full to the end
@@ -308,8 +314,9 @@ def dictionary_cases(rng):
         if not big:
             states.append((0, [], [("WriteBytes", tuple(mem[:v + 2])), ("ReadBytes", 2)]))   # length = v at offset 2
         if big:
-            states.append((0, [], [("WriteBytes", tuple(mem[:v]))]))                    # length = v
-            states.append((0, [], [("WriteBytes", tuple(mem[:v + 3]))]))                # length just above v
+            states.append((0, [], [("WriteBytes", blk(v))]))                            # length = v
+            states.append((0, [], [("WriteBytes", blk(v + 3))]))                        # length just above v
+            states.append((0, [], [("WriteBytes", blk(v + 8)), ("ReadBytes", 2)]))      # a small read offset under a length above v
         from_states(S, states, v)
     # pairs of literals (and their lower/upper neighbours): read offset = a, unread length = b
     pairs = []
@@ -333,11 +340,13 @@ def dictionary_cases(rng):
         ops = ops_of(c)
         last = ops[-1] if ops[-1][0] != "ReadAll" or len(ops) < 3 else ops[-4] if len(ops) >= 4 else ops[-1]
         hit = any(isinstance(x, int) and x in NOVEL for x in last[1:]) or any(isinstance(x, tuple) and len(x) in NOVEL for x in last[1:])
+        if last[0] == "Deframe" and c.meta.get("nomodel"):
+            return -1
         return 0 if hit or last[0] in ("Shift", "ReadAll", "TryParse", "Clear", "CopyOnce") else 1
     for g in groups:
         g.sort(key=prio)
     out, size, i = [], 0, 0
-    while len(out) < 2500 and size < 60000000 and any(groups):
+    while len(out) < 2500 and size < 80000000 and any(groups):
         g = groups[i % len(groups)]
         if g:
             c = g.pop(0)
